@@ -73,3 +73,21 @@ Theorem c08_listener_invariant_after_every_delivery :
     Effects.WInv w -> HL w -> HL (snd (fst (deliver_one beh it w))).
 Proof. exact deliver_one_HL. Qed.
 Print Assumptions c08_listener_invariant_after_every_delivery.
+
+From Coq Require Import Bool.
+Require Import EV.Fetch EV.NoUB EV.Sender EV.Users.
+(* in every world satisfying the reachable invariant ZI, each handler a delivery runs listens for exactly
+   the delivered event - the event registered at the item's index - not merely for that index *)
+Theorem c08_delivered_handlers_receive_this_event :
+  forall (w : world) (it : qitem) (hk : key), ZI w -> In hk (delivered_to w it) ->
+    exists h ek info, hlive w hk h /\
+      (if qi_targeted it then h_recv h = RvTargeted ek /\ get_by_index (w_tev w) (qi_idx it) = Some (ek, info)
+       else h_recv h = RvGlobal ek /\ get_by_index (w_gev w) (qi_idx it) = Some (ek, info)).
+Proof. exact delivered_receive_this_event. Qed.
+Print Assumptions c08_delivered_handlers_receive_this_event.
+
+Theorem c08_reachable_worlds_satisfy_ZI :
+  forall (beh : hinfo -> logent -> N -> script) (fuel p : N) (ops : list top_all),
+    ZI (fold_left (run_top_all beh) ops (world0 fuel p)).
+Proof. exact reachable_ZI. Qed.
+Print Assumptions c08_reachable_worlds_satisfy_ZI.
